@@ -429,6 +429,12 @@ def _record_analysis(spec):
                     ph = -2 * math.pi * float(r.f[j]) * d / fs
                     hh = r.Hxy[j]
                     ev.append({"t": "delay", "d": d, "L": int(r.L[j]), "h": [qc(hh.real), qc(hh.imag)], "cp": qc(math.cos(ph)), "sp": qc(math.sin(ph)), "tight": 0, "K": int(r.K[j])})
+                # the same phase read through the unwrapped-degrees accessor (modulo 360)
+                udeg = np.asarray(r.cf_deg_unwrapped, dtype=float)
+                for j in idx[::3]:
+                    ph = -2 * math.pi * float(r.f[j]) * d / fs
+                    hu = abs(r.Hxy[j]) * complex(math.cos(math.radians(udeg[j])), math.sin(math.radians(udeg[j])))
+                    ev.append({"t": "delay", "d": d, "L": int(r.L[j]), "h": [qc(hu.real), qc(hu.imag)], "cp": qc(math.cos(ph)), "sp": qc(math.sin(ph)), "tight": 0, "K": int(r.K[j])})
             elif kind == "delayline":
                 # a single-segment bin (K = 1, L = N) at bin number 4 carrying a line that completes 4 cycles in the record: the delayed
                 # copy is exactly the phase-shifted line, so H = exp(-i 2 pi f d/fs) without averaging and without edge effect
